@@ -492,6 +492,12 @@ def check_C09(run):
     run.assumptions += ["C09_error_offsets is proved for every program; anchoring of last_token in the final stream and the missing-symbol/virtual-token pairing are tested by the oracle and monitored (g_err_ok), not proved"]
 
 
+def check_C07(run):
+    lexer_check(run, "C07", O.c07, 3000, 80000,
+                extra_inputs=lambda rng, run: gen.escape_stream(rng.fork("esc"), tier_n(run, 6000, 200000)))
+    run.assumptions += ["partition of the literal buffer and payload = unquoted text are tested by the oracle (independent unquoting) on every token; proved: the hex string decoder"]
+
+
 def check_C10(run):
     lexer_check(run, "C10", O.c10, 3000, 80000,
                 extra_inputs=lambda rng, run: [t for f in gen.sample_files()[:1] for t in gen.truncations(f, max(1, len(f) // 150))])
@@ -599,6 +605,87 @@ def check_C16(run):
     run.assumptions += ["whole-lexer case independence is tested (random/extreme variants of every input, all or sampled 2^n variants of keyword templates); proved: the classification helpers"]
 
 
+def grammar_programs(run, rng, n, maxd):
+    import grammar
+    progs = []
+    for i in range(n):
+        g = grammar.G(rng.fork(("g", i)), maxd=maxd)
+        progs.append(g.program())
+    return progs
+
+
+def grammar_check(run, module, which):
+    """C12 / C13 / C14: programs sampled from the construct grammar (DESIGN 6.3) with recorded
+    delimiter positions; model vs implementation on every program (and every deletion), then the oracle"""
+    import grammar, corr
+    rng = Rng(run.seed).fork(run.prop)
+    coq_part(run, module)
+    try:
+        exe = coqbuild.build_model()
+    except CoqFailure as e:
+        exe = None
+        run.pending_break = ("model-build", e.detail[:600])
+    T = impl.tables("debug")
+    n = tier_n(run, 2500, 60000)
+    progs = grammar_programs(run, rng, n, 3 if run.tier == "quick" else 4)
+    if which == "C14":
+        items = []
+        for p in progs[: n // 2]:
+            for d in grammar.deletions(p):
+                items.append(d)
+        ins = [d[0] for d in items]
+    else:
+        ren = [grammar.render(p) for p in progs]
+        ins = [t for t, _ in ren]
+    variants = ("debug", "release")
+    results = correspond(run, exe, ins, variants, T, None, stream="grammar")
+    nfail = 0
+    for variant in variants:
+        cases = results[variant]
+        run.count(f"grammar:{variant}", len(cases))
+        for k, c in enumerate(cases):
+            if c.src is None:
+                continue
+            if c.outcome != "ok":
+                if which == "C12":
+                    run.violation("oracle", f"[{variant}] well-formed program does not lex: {c.outline[:120]}", src=c.src)
+                continue
+            cx = O.Ctx(c, T)
+            run._distinct.update(bigram_keys(c))
+            if which == "C12":
+                f = O.c12(cx)
+            elif which == "C13":
+                f = O.c13(cx, ren[k][1])
+            else:
+                d = items[k]
+                f = O.c14(cx, d[1], d[2], d[3], d[4])
+            if f:
+                nfail += 1
+                if nfail <= 4:
+                    extra = {"annotations": ren[k][1][:40]} if which == "C13" else ({"deleted": items[k][2:]} if which == "C14" else None)
+                    run.violation("oracle", f"[{variant}/grammar] {f[0]}", src=c.src, extra=extra)
+    run.sample({"program": ins[0][:300]})
+    run.sample({"program": ins[len(ins) // 2][:300]})
+    run.cov["rule"] = ("programs sampled from the construct grammar of DESIGN.md 6.3 (depth <= %d) with recorded delimiter/gap positions%s; each lexed by the implementation "
+                       "(debug, release) and by the extracted model, compared byte for byte, then judged by the oracle; distinct = token-type bigrams" %
+                       (3 if run.tier == "quick" else 4, " and every single deletion of a mandatory delimiter" if which == "C14" else ""))
+    settle_break(run)
+
+
+def check_C12(run):
+    grammar_check(run, "C12", "C12")
+
+
+def check_C13(run):
+    grammar_check(run, "C13", "C13")
+
+
+def check_C14(run):
+    grammar_check(run, "C14", "C14")
+    run.assumptions += ["C14 over the whole grammar is tested (sampled programs x all single deletions); proved: pre-loaded expectations and the recovery step of an ExpectSymbol mode",
+                        "deletions that fuse neighbouring lexemes or leave the same delimiter character next are not instances (DESIGN 6.3)"]
+
+
 def check_C17(run):
     BOMC = "\ufeff"
     state = {}
@@ -664,4 +751,4 @@ def check_C18(run):
     run.assumptions += ["equality of the two feature builds up to MacroSep tokens is tested on every input (both builds of the implementation, both configurations of the model); proved: the guard predicate"]
 
 
-CHECKS = {"C04": check_C04, "C06": check_C06, "C10": check_C10, "C16": check_C16, "C17": check_C17, "C18": check_C18, "C09": check_C09, "C05": check_C05, "C03": check_C03, "C02": check_C02, "C19": check_C19}
+CHECKS = {"C04": check_C04, "C06": check_C06, "C07": check_C07, "C14": check_C14, "C10": check_C10, "C16": check_C16, "C17": check_C17, "C18": check_C18, "C09": check_C09, "C05": check_C05, "C03": check_C03, "C02": check_C02, "C19": check_C19}
